@@ -1,5 +1,6 @@
 import RpcVerif.Lemmas.ConnProps
 import RpcVerif.Generated.ConnFacts
+import RpcVerif.Generated.ServerFacts
 /-
   C03 — connection loss fails calls fast; no caller hangs (client automaton K).
   "Bounded time" is not a theorem: it is rendered as quiescence (in every state where no thread
@@ -56,5 +57,13 @@ theorem C03_all_completed_after_end {cfg : Cfg} {tr : List Ev} {s : State} (h : 
 theorem C03_source_facts :
     (Gen.connDrainsDecodeQueueBeforeSweep && Gen.connSetsShutdownInsideSweep && Gen.connSendRefusesUnderLock &&
      Gen.connReadDropsFramesAfterShutdown) = true := by decide
+
+/-- The other end of the same sentence: when a server connection ends — for whatever reason, and
+    whoever started serving it (a listener or a direct `ServeCodec`) — its teardown closes the codec,
+    i.e. the socket, so the client's reader sees the end and K's `rerr`/`seeClose` → `sweep` path
+    above runs: a request direction that fails at the server cannot leave the client's calls pending
+    on a half-open connection (order and unconditional close read from ServeCodec on every run). -/
+theorem C03_server_end_closes_the_connection :
+    (Gen.teardownDrainsFirst && Gen.teardownClosesCodecAlways) = true := by decide
 
 end RpcVerif.Props
